@@ -89,6 +89,36 @@ Definition chk_gate (c : config) (pre : list event) (e : event) : bool :=
 Definition chk_once (pre : list event) (e : event) : bool :=
   match e with ERunCall j => negb (mem_ev (ERunCall j) pre) | _ => true end.
 
+(* a failure that was already queued when the system was observed quiescent ends the start-up: no
+   runnable is started after "a real error was returned, then a quiescent point" *)
+Fixpoint err_then_quiet (seen_err : bool) (t : list event) : bool :=
+  match t with
+  | [] => false
+  | e :: t' =>
+    match e with
+    | ERunRet _ (Some (_, false)) => err_then_quiet true t'
+    | EQuiet | ESnap _ => seen_err || err_then_quiet seen_err t'
+    | _ => err_then_quiet seen_err t'
+    end
+  end.
+Definition chk_pending (pre : list event) (e : event) : bool :=
+  match e with ERunCall _ => negb (err_then_quiet false pre) | _ => true end.
+Definition c03_pending (c : config) (t : list event) : bool := all_check chk_pending t.
+
+(* the supervisor does not cancel the runnables' contexts before every Stop() has returned: a
+   runnable that only exits when signalled returns only after its own StopCall, after the parent
+   context was cancelled, or after the last Stop() (index 0) returned *)
+Definition chk_cancel_after (c : config) (pre : list event) (e : event) : bool :=
+  match e with
+  | ERunRet i _ =>
+    match run_exit (spec c i) with
+    | ExitOnSignal => mem_ev (EStopCall i) pre || cancel_evidence pre
+    | _ => true
+    end
+  | _ => true
+  end.
+Definition c01_cancel_after (c : config) (t : list event) : bool := all_check (chk_cancel_after c) t.
+
 Definition c03_gate (c : config) (t : list event) : bool := all_check (chk_gate c) t.
 Definition c03_once (c : config) (t : list event) : bool := all_check chk_once t.
 Definition c03_holdsb (c : config) (t : list event) : bool := c03_gate c t && c03_once c t.
@@ -200,6 +230,23 @@ Fixpoint c06_snap_aux (c : config) (pre : list event) (t : list event) : bool :=
      end) && c06_snap_aux c (pre ++ [e]) t'
   end.
 Definition c06_holdsb (c : config) (t : list event) : bool := c06_snap_aux c [] t.
+
+(* after shutdown the map reports the state each runnable had when its Stop() returned (runnables do
+   not change state after Stop() returned): checked at snapshots taken after Run() returned *)
+Fixpoint c06_final_aux (c : config) (pre t : list event) : bool :=
+  match t with
+  | [] => true
+  | e :: t' =>
+    (match e with
+     | ESnap o =>
+       negb (sn_run_returned o) || shutdown_may_fire c ||
+       forallb (fun i => negb (stateable (spec c i)) || negb (mem_ev (EStopRet i) pre)
+                         || opt_st_eqb (nth i (sn_smap o) None) (Some (true_state i pre 0)))
+               (seq 0 (nrun c))
+     | _ => true
+     end) && c06_final_aux c (pre ++ [e]) t'
+  end.
+Definition c06_final (c : config) (t : list event) : bool := c06_final_aux c [] t.
 
 (* after a clean termination (Run returned, no caller blocked, shutdown timeout not configured to
    fire) no library goroutine remains, apart from the closers of subscriptions still open *)
